@@ -224,7 +224,7 @@ def build_harness(package="vh", timeout=3000):
         # harness glue generated from the object table / published docs (setup.sh writes it too):
         # a fresh restore, or a check run without setup, still builds
         gen = os.path.join(HARNESS, "vh", "src", "generated")
-        need = {"login_dispatch.rs": "tools.gen_dispatch", "collective_dispatch.rs": "tools.gen_dispatch",
+        need = {"login_dispatch.rs": "tools.gen_dispatch", "collective_dispatch.rs": "tools.gen_dispatch", "expect_dispatch.rs": "tools.gen_dispatch",
                 "mask_gen.rs": "tools.gen_mask", "definer_gen.rs": "tools.gen_definer", "chunks_gen.rs": "tools.gen_chunks"}
         for mod in sorted({m for f, m in need.items() if not os.path.exists(os.path.join(gen, f))}):
             os.makedirs(gen, exist_ok=True)
